@@ -209,6 +209,30 @@ class Drillhole(Points):
 
         return None
 
+    def copy_from_extent(
+        self,
+        extent: np.ndarray,
+        parent=None,
+        copy_children: bool = True,
+        clear_cache: bool = False,
+        inverse: bool = False,
+        **kwargs,
+    ):
+        """
+        Copy the whole hole when its collar qualifies: the collar mask selects
+        the hole, it is not a mask on the vertices.
+        """
+        indices = self.mask_by_extent(extent, inverse=inverse)
+        if indices is None or not np.any(indices):
+            return None
+
+        return self.copy(
+            parent=parent,
+            copy_children=copy_children,
+            clear_cache=clear_cache,
+            **kwargs,
+        )
+
     @property
     def planning(self) -> str:
         """
